@@ -39,7 +39,7 @@ func (p *c10) Directed() []string {
 
 func (p *c10) Floors(tier string) []string {
 	return []string{"clause.rejected_unchanged", "clause.rejected_no_events", "clause.followup_equal", "code.101", "code.102", "code.103",
-		"fault.flow-deleted", "fault.node-deleted", "fault.router-removed", "fault.wait-removed", "fault.exits-rekeyed", "fault.parent-flow-deleted", "fault.resume-limit", "fault.corrupt-no-waiting-run",
+		"fault.flow-deleted", "fault.node-deleted", "fault.router-removed", "fault.wait-removed", "fault.exits-rekeyed", "fault.parent-flow-deleted", "fault.parent-node-deleted", "fault.resume-limit", "fault.corrupt-no-waiting-run",
 		"clause.fault_no_panic_no_goerror", "clause.fault_impossible_fails"}
 }
 
@@ -267,6 +267,8 @@ func deepCopy(m gen.M) gen.M {
 type waitingLoc struct {
 	flowUUID, nodeUUID string
 	parentFlows        []string
+	parentNodes        []string // node at which each ancestor run is paused (parallel to the ancestors walked)
+	parentNodeFlows    []string
 }
 
 func findWaiting(sessionJSON []byte) *waitingLoc {
@@ -300,6 +302,10 @@ func findWaiting(sessionJSON []byte) *waitingLoc {
 				}
 				if s.Runs[i].Flow.UUID != w.flowUUID {
 					w.parentFlows = append(w.parentFlows, s.Runs[i].Flow.UUID)
+				}
+				if n := len(s.Runs[i].Path); n > 0 && !(s.Runs[i].Flow.UUID == w.flowUUID && s.Runs[i].Path[n-1].NodeUUID == w.nodeUUID) {
+					w.parentNodes = append(w.parentNodes, s.Runs[i].Path[n-1].NodeUUID)
+					w.parentNodeFlows = append(w.parentNodeFlows, s.Runs[i].Flow.UUID)
 				}
 				pu = s.Runs[i].ParentUUID
 			}
@@ -345,6 +351,35 @@ func faultAssets(scen *gen.Scenario, kind string, w *waitingLoc, r *fw.Rand) gen
 			return nil
 		}
 		a["flows"] = append(append([]any{}, fl[:pi]...), fl[pi+1:]...)
+	case "parent-node-deleted":
+		if len(w.parentNodes) == 0 {
+			return nil
+		}
+		_, pf := findFlow(w.parentNodeFlows[0])
+		if pf == nil {
+			return nil
+		}
+		pn, _ := pf["nodes"].([]any)
+		var keep []any
+		for _, n := range pn {
+			if n.(map[string]any)["uuid"] != w.parentNodes[0] {
+				keep = append(keep, n)
+			}
+		}
+		if len(keep) == len(pn) {
+			return nil
+		}
+		if keep == nil {
+			keep = []any{}
+		}
+		pf["nodes"] = keep
+		for _, n := range keep {
+			for _, e := range n.(map[string]any)["exits"].([]any) {
+				if e.(map[string]any)["destination_uuid"] == w.parentNodes[0] {
+					delete(e.(map[string]any), "destination_uuid")
+				}
+			}
+		}
 	case "node-deleted":
 		if node == nil {
 			return nil
@@ -414,7 +449,7 @@ func faultAssets(scen *gen.Scenario, kind string, w *waitingLoc, r *fw.Rand) gen
 	return a
 }
 
-var faultKinds = []string{"flow-deleted", "node-deleted", "router-removed", "wait-removed", "exits-rekeyed", "parent-flow-deleted", "resume-limit", "corrupt-no-waiting-run"}
+var faultKinds = []string{"flow-deleted", "node-deleted", "router-removed", "wait-removed", "exits-rekeyed", "parent-flow-deleted", "parent-node-deleted", "resume-limit", "corrupt-no-waiting-run"}
 
 // faults restores the waiting session against faulted assets and resumes it with the next valid resume.
 func (p *c10) faults(res *fw.Result, scen *gen.Scenario, rn *drive.Runner, next gen.M, viol func(sig, what string, extra map[string]any)) {
@@ -486,6 +521,12 @@ func (p *c10) faults(res *fw.Result, scen *gen.Scenario, rn *drive.Runner, next 
 				continue
 			}
 			// the faulted definition must itself still load (a fault that makes the flow invalid is the asset store's problem, not the engine's)
+			if kind == "parent-node-deleted" {
+				if _, err := sa.Flows().Get(assets.FlowUUID(w.parentNodeFlows[0])); err != nil {
+					res.Count("fault_skipped_invalid_definition."+kind, 1)
+					continue
+				}
+			}
 			if kind != "flow-deleted" {
 				if _, err := sa.Flows().Get(assets.FlowUUID(w.flowUUID)); err != nil {
 					res.Count("fault_skipped_invalid_definition."+kind, 1)
@@ -553,7 +594,7 @@ func (p *c10) faults(res *fw.Result, scen *gen.Scenario, rn *drive.Runner, next 
 			continue
 		}
 		if err2 != nil && !isReject {
-			if kind == "exits-rekeyed" || kind == "parent-flow-deleted" {
+			if kind == "exits-rekeyed" {
 				res.Count("fault_goerror_changed_but_resumable."+kind, 1) // outside the statement's list: observed, not judged
 				continue
 			}
